@@ -325,6 +325,30 @@ class Sym:
             self._poly[key] = p
         return p
 
+    def header_sym(self, l):
+        """symbol for the value a loop-carried local has at the loop header: loop(<initial values>), where the
+        initial values are its definitions that do not mention the local itself"""
+        if not hasattr(self, "_header_syms"):
+            self._header_syms = {}
+        if l in self._header_syms:
+            return self._header_syms[l]
+        self._header_syms[l] = None
+        tm = self.an.terms
+        inits = []
+        for (bi, si, x) in tm.defs.whole[l]:
+            dt = tm.call_term(x, bi) if si == "t" else tm.rvalue(x)
+            from .terms import walk as _walk
+            if any(y[0] in ("var", "mut") and y[1] == l for y in _walk(dt)):
+                continue
+            p = self.poly(dt)
+            if p is None:
+                return None
+            inits.append(str(p))
+        if not inits:
+            return None
+        self._header_syms[l] = self.loop_sym(l, "|".join(sorted(set(inits))))
+        return self._header_syms[l]
+
     def uniq(self, local, desc):
         """In `unique_locals` mode (panic-obligation engine) two different locals with the same canonical description
         get different names, so that a fact about one is never applied to the other; the table-comparison packs keep
@@ -568,7 +592,25 @@ class Sym:
                 a, b = self.poly(t[2]), self.poly(t[3])
                 if a is None or b is None:
                     return None
-                return Poly.sym("%s(%s,%s)" % (op.lower(), a, b))
+                nm = "%s(%s,%s)" % (op.lower(), a, b)
+                if nm not in self.sym_box:
+                    # value ranges of bit operations with a constant operand (unsigned operands)
+                    from .prover import poly_interval
+                    alo, ahi = poly_interval(a, {s_: self.sym_box.get(s_, (None, None)) for s_ in a.syms()})
+                    blo, bhi = poly_interval(b, {s_: self.sym_box.get(s_, (None, None)) for s_ in b.syms()})
+                    bx = None
+                    if op == "BitAnd":
+                        his = [h for (l, h) in ((alo, ahi), (blo, bhi)) if l is not None and l >= 0 and h is not None]
+                        if his:
+                            bx = (0, int(min(his)))
+                    elif op == "Shr" and b.is_const() and alo is not None and alo >= 0 and ahi is not None:
+                        k_ = int(b.const_value())
+                        bx = (int(alo) >> k_, int(ahi) >> k_)
+                    elif op in ("BitOr", "BitXor") and alo is not None and alo >= 0 and ahi is not None and blo is not None and blo >= 0 and bhi is not None:
+                        bx = (0, (1 << max(int(ahi).bit_length(), int(bhi).bit_length())) - 1)
+                    if bx is not None:
+                        self.sym_box[nm] = bx
+                return Poly.sym(nm)
             return None
         if k == "cast":
             if t[1] in ("IntToInt",):
@@ -675,8 +717,25 @@ class Sym:
             return Poly.sym(self.name(t))
         if k == "var":
             if t[1] in self._busy_vars:
-                return Poly.sym("loopvar")
-            defs = self.var_defs(t[1])
+                # a read of the local inside its own redefinition (`i = i + 1`): the value it had at the loop header
+                hs = self.header_sym(t[1]) if len(t) > 2 else None     # position-tagged reads only (obligation engine)
+                return Poly.sym(hs) if hs else Poly.sym("loopvar")
+            vpos = t[2] if len(t) > 2 else None
+            if vpos is not None and self.path_blocks is None and not self.an.terms.defs.partial[t[1]]:
+                # flow-sensitive resolution by reaching definitions (no concrete path set)
+                rd = self.reaching(t[1], vpos)
+                if rd == {"HEADER"}:
+                    hs = self.header_sym(t[1])
+                    if hs:
+                        return Poly.sym(hs)
+                elif len(rd) == 1:
+                    d1 = self.def_at(t[1], next(iter(rd)))
+                    self._busy_vars.add(t[1])
+                    try:
+                        return self.poly(self._def_term(d1))
+                    finally:
+                        self._busy_vars.discard(t[1])
+            defs = self.var_defs(t[1], vpos)
             if defs:
                 self._busy_vars.add(t[1])
                 try:
@@ -690,6 +749,9 @@ class Sym:
                     if rec:
                         return Poly.sym(self.loop_sym(t[1], "|".join(sorted(str(p) for p in ps if p not in rec))))
                     nm = "phi(%s)" % "|".join(sorted(str(p) for p in ps))
+                    if vpos is not None and getattr(self, "unique_locals", False):
+                        # which definition reaches this read is unknown here: the symbol is private to the read
+                        nm = "%s@%s.%s" % (nm, vpos[0], vpos[1])
                     self.phis[nm] = ps
                     raw = self.an.terms.defs.whole[t[1]]
                     if len(raw) == len(ps) and not self.an.terms.defs.partial[t[1]]:
@@ -703,13 +765,41 @@ class Sym:
             return Poly.sym(self.loop_sym(t[1], str(inner) if inner is not None else "?"))
         return None
 
-    def var_defs(self, l):
+    def var_defs(self, l, pos=None):
         out = []
         tm = self.an.terms
         if tm.defs.partial[l]:
             return None
         defs = tm.defs.whole[l]
-        if self.path_blocks is not None:
+        if self.path_blocks is not None and pos is not None and pos[0] in self.path_blocks:
+            # position-aware resolution: the definition that reaches the read at `pos` along this path
+            order = self.path_order
+
+            def key(d):
+                return (order.get(d[0], -1), d[1] if d[1] != "t" else 1 << 30)
+            rk = (order[pos[0]], pos[1] if pos[1] != "t" else (1 << 30) + 1)
+            before = sorted([d for d in defs if d[0] in self.path_blocks and key(d) < rk], key=key)
+            # loop headers crossed before the read: a definition inside such a loop that is NOT on the path before
+            # the read may have executed in an earlier iteration
+            hdr = -1
+            for d in defs:
+                if d[0] in self.path_blocks and key(d) < rk:
+                    continue
+                for h in self.loops_containing(d[0]):
+                    if h in self.path_blocks and order[h] <= rk[0]:
+                        hdr = max(hdr, order[h])
+            if hdr >= 0:
+                later = [d for d in before if order[d[0]] > hdr or (order[d[0]] == hdr and False)]
+                if later:
+                    defs = [later[-1]]
+                else:
+                    init = [d for d in before if order[d[0]] <= hdr]
+                    return [("loopval", l, tuple(self._def_term(d) for d in init[-1:]))]
+            elif before:
+                defs = [before[-1]]
+            else:
+                return None
+        elif self.path_blocks is not None:
             order = self.path_order
             on = [d for d in defs if d[0] in self.path_blocks]
             # definitions inside a loop whose header the path crosses (the path itself skips the
@@ -732,17 +822,78 @@ class Sym:
                 # the definition that reaches the end of the path: the last one in path order
                 on.sort(key=lambda d: (order.get(d[0], -1), d[1] if d[1] != "t" else 1 << 30))
                 defs = [on[-1]]
-        for (bi, si, x) in defs:
-            if si == "t":
-                out.append(tm.call_term(x, bi))
-            else:
-                out.append(tm.rvalue(x))
+        for d in defs:
+            out.append(self._def_term(d))
         return out
+
+    def reaching(self, l, pos):
+        """Reaching definitions of local l at the read position pos = (block, stmt|"t"), over the CFG with back edges
+        cut: a set of definition triples and/or the marker "HEADER" (= the value the local has on entry to the
+        innermost loop around pos that redefines it: its loop-carried value in the current iteration)."""
+        key = (l, pos)
+        if not hasattr(self, "_reach"):
+            self._reach = {}
+        if key in self._reach:
+            return self._reach[key]
+        body = self.an.body
+        tm = self.an.terms
+        defs = tm.defs.whole[l]
+        by_block = {}
+        for d in defs:
+            by_block.setdefault(d[0], []).append(d)
+
+        def skey(si):
+            return si if si != "t" else 1 << 30
+        for b_ in by_block:
+            by_block[b_].sort(key=lambda d: skey(d[1]))
+        # innermost loop around pos containing a definition of l
+        start, region = 0, None
+        best = None
+        self.loops_containing(pos[0])      # makes sure self._loops exists
+        for h, blocks in self._loops:
+            if pos[0] in blocks and any(d[0] in blocks for d in defs):
+                if best is None or len(blocks) < len(best[1]):
+                    best = (h, blocks)
+        back = set(body.back_edges())
+        if best is not None:
+            start, region = best
+        # forward dataflow in reverse post order over the acyclic graph
+        order = [b_ for b_ in body.rpo() if region is None or b_ in region]
+        IN, OUT = {}, {}
+        for b_ in order:
+            if b_ == start:
+                cur = {"HEADER"} if region is not None else set()
+            else:
+                cur = set()
+                for p_ in body.preds(b_):
+                    if (p_, b_) in back or (region is not None and p_ not in region):
+                        continue
+                    cur |= OUT.get(p_, set())
+            IN[b_] = cur
+            ds = by_block.get(b_)
+            OUT[b_] = {(ds[-1][0], ds[-1][1])} if ds else cur
+        cur = set(IN.get(pos[0], set()))
+        for d in by_block.get(pos[0], []):
+            if skey(d[1]) < skey(pos[1]):
+                cur = {(d[0], d[1])}
+        self._reach[key] = cur
+        return cur
+
+    def def_at(self, l, k):
+        for d in self.an.terms.defs.whole[l]:
+            if (d[0], d[1]) == k:
+                return d
+        return None
 
     def _def_term(self, d):
         tm = self.an.terms
         bi, si, x = d
-        return tm.call_term(x, bi) if si == "t" else tm.rvalue(x)
+        saved = tm._pos
+        tm._pos = (bi, si)
+        try:
+            return tm.call_term(x, bi) if si == "t" else tm.rvalue(x)
+        finally:
+            tm._pos = saved
 
     def loops_containing(self, bb):
         if not hasattr(self, "_loops"):
